@@ -55,7 +55,10 @@ type c09Scenario struct {
 type c09Engine struct{}
 
 var c09Big = []uint64{1 << 32, 1<<62 - 2, 1 << 62, 0x737461626c657373, 0x737461626c657374, 0x737461626c657375, 0x7fffffffffffffff, 0x8000000000000000, ^uint64(0) - 5}
-var c09Keys = []string{"CurrentTerm", "LastVoteTerm", "LastVoteCand", "", "\x00\x00\x00\x00\x00\x00\x00\x05", "stablestore-x", "k\xff"}
+var c09Keys = []string{"CurrentTerm", "LastVoteTerm", "LastVoteCand", "", "\x00\x00\x00\x00\x00\x00\x00\x05", "stablestore-x", "k\xff",
+	// long keys that differ only far from the start, and a key that is a prefix of another
+	"peer-address/robustirc-1.example.net:60667", "peer-address/robustirc-2.example.net:60667", "peer-address/robustirc-", "peer-address/robustirc-1.example.net:60667/x",
+	strings.Repeat("k", 64) + "a", strings.Repeat("k", 64) + "b"}
 
 func (c09Engine) Generate(seed uint64, prop, tier string) (json.RawMessage, error) {
 	g := core.NewSource(seed).Stream("gen")
